@@ -68,6 +68,7 @@ from typing import (
     List,
     Optional,
     Set,
+    Tuple,
     TypeVar,
 )
 
@@ -746,7 +747,8 @@ def _force_trigger_tasks(
 
     warnings_flow_none = []
     warnings_has_job = []
-    active_completed_outputs = {}
+    # Messages of outputs already completed by live group start tasks:
+    active_completed_outputs: Dict[Tuple[str, str], Set[str]] = {}
     inactive: Set[TaskTokens] = set(group_ids)
     for itask in active:
         # Find active group start tasks (parentless, or with only off-group
@@ -780,10 +782,11 @@ def _force_trigger_tasks(
                 continue
 
             if itask.state(*TASK_STATUSES_ACTIVE):
-                for (label, msg, completed) in itask.state.outputs:
+                for (_label, msg, completed) in itask.state.outputs:
                     if completed:
-                        active_completed_outputs[
-                            (str(itask.point), itask.tdef.name)] = (label, msg)
+                        active_completed_outputs.setdefault(
+                            (str(itask.point), itask.tdef.name), set()
+                        ).add(msg)
 
             if itask.state(TASK_STATUS_PREPARING, *TASK_STATUSES_ACTIVE):
                 # This is a live active group start task
@@ -884,7 +887,9 @@ def _force_trigger_tasks(
                 PrereqTuple(str(key.point), str(key.task), key.output)
                 for pre in _prereqs
                 for key in pre.keys()
-                if (str(key.point), key.task) in active_completed_outputs
+                if key.output in active_completed_outputs.get(
+                    (str(key.point), key.task), ()
+                )
             })
 
             if (
